@@ -25,6 +25,23 @@ CLAIMED = {
              "SoftMinMax/KS/PNorm bounds are decided by z3 (EXP/LOG with ground monotonicity instances).",
         note="float64 as exact reals; n <= 3 (quick) / 5 (thorough); PNorm bounds only for integer p; lemma instances for "
              "EXP/LOG listed in the evidence."),
+    "C02": dict(
+        text="All wirings of <= 3 modules (4 in the thorough tier) over shared, doubly-used and sliced signals, with "
+             "nested networks and every non-empty subset of seeded sinks, executed with symbolic values, coefficients and "
+             "seeds through the real Network.response/sensitivity/reset; the source sensitivities are compared entry-wise "
+             "with a forward-mode reference of the composed function (z3 decides each polynomial identity), None-ness is "
+             "compared with reachability from a seed.",
+        note="graphs beyond the enumerated sizes, outputs written through slices and fully non-linear 4-chains are outside; "
+             "module set: a polynomial test module with hand-written adjoint, EinSum, ConcatSignal, Scaling, MathGeneral."),
+    "C06": dict(
+        text="The real LDAWrapper (get_diagonal_indices, update, solve, _do_solve_1rhs, residual) around a counting contract "
+             "oracle, for every off-diagonal zero pattern of 2x2 (3x3 thorough) matrices and histories of update/solve "
+             "calls with new, repeated, scaled, summed, zero, complex and block right-hand sides in N/T/H order; every "
+             "returned x must satisfy op(A) x = b as a rational identity (z3), dependent right-hand sides must not reach "
+             "the inner solver, update() must clear the stores.",
+        note="float64 as exact reals; wrapper tolerance 0 so that reuse means an exactly zero residual; norms are compared on "
+             "squares; complex classes only in the thorough tier (partly inconclusive); D11 (flags kept across update) is a "
+             "known finding."),
     "C07": dict(
         text="LinSolve / Inverse / SystemOfEquations / StaticCondensation executed on symbolic matrices (every class, "
              "dense and sparse stand-ins, all dof partitions up to n=4); right-hand sides are defined from free "
